@@ -5,6 +5,12 @@
 #include <ftp/ftp.hpp>
 #include <ftp/stream/input_stream.hpp>
 #include <ftp/stream/output_stream.hpp>
+#include <csignal>
+#include <sys/time.h>
+#include <ftp/stream/istream_adapter.hpp>
+#include <ftp/stream/ostream_adapter.hpp>
+#include <streambuf>
+#include <ostream>
 #include <dirent.h>
 #include <unistd.h>
 #include <iostream>
@@ -93,6 +99,24 @@ struct rec_sink : output_stream
     }
     void flush() override { logtok("sf"); }
 };
+
+// std::ostream whose buffer logs what ftp::ostream_adapter hands to it: writes as "sw" tokens, flush as "sf"
+struct logging_streambuf : std::streambuf
+{
+    std::streamsize xsputn(const char *s, std::streamsize n) override
+    {
+        logtok(payload_token("sw", std::string_view(s, (size_t)n)));
+        return n;
+    }
+    int_type overflow(int_type ch) override
+    {
+        if (ch != traits_type::eof()) { char c = (char)ch; logtok(payload_token("sw", std::string_view(&c, 1))); }
+        return ch;
+    }
+    int sync() override { logtok("sf"); return 0; }
+};
+
+static void on_alarm(int) {}
 
 // source that returns the scripted chunks (never more than asked), then 0 for ever
 struct chunk_source : input_stream
@@ -199,8 +223,10 @@ static void run_case(toks & tk, const std::string & certdir)
             else if (k == "S") { a1 = tk.nhex(); has_arg = tk.nbool(); if (has_arg) a2 = tk.nhex(); }
             else if (k == "T") { a1 = tk.next(); }
             else if (k == "N") { a1 = tk.nhex(); a2 = tk.nhex(); }
-            else if (k == "D") { a1 = tk.nhex(); cb_answers = read_cb(tk, has_cb); if (tk.nbool()) fail_at = tk.nint(); }
-            else if (k == "U") { upv = tk.next(); a1 = tk.nhex(); long n = tk.nint(); for (long i = 0; i < n; i++) chunks.push_back(tk.nhex()); cb_answers = read_cb(tk, has_cb); }
+            else if (k == "D" || k == "Da") { a1 = tk.nhex(); cb_answers = read_cb(tk, has_cb); if (tk.nbool()) fail_at = tk.nint(); }
+            else if (k == "Z") { has_arg = tk.nbool(); }
+            else if (k == "W") { port = tk.nint(); }
+            else if (k == "U" || k == "Ua") { upv = tk.next(); a1 = tk.nhex(); long n = tk.nint(); for (long i = 0; i < n; i++) chunks.push_back(tk.nhex()); cb_answers = read_cb(tk, has_cb); }
             else if (k == "F") { has_arg = tk.nbool(); if (has_arg) a1 = tk.nhex(); names = tk.nbool(); }
             else if (k == "X") { graceful = tk.nbool(); }
             else if (k == "+" || k == "-") { obs = tk.nint(); }
@@ -240,6 +266,50 @@ static void run_case(toks & tk, const std::string & certdir)
                 }
                 else if (k == "T") out = "ret:reply:" + show_reply(cl.set_transfer_type(a1 == "A" ? transfer_type::ascii : transfer_type::binary));
                 else if (k == "N") out = "ret:replies:" + show_replies(cl.rename(a1, a2));
+                else if (k == "Z")
+                {
+                    // a process that receives signals all the time (an interval timer with a restarting handler), from now
+                    // on / no longer: system calls of the transfers that follow are interrupted again and again
+                    struct sigaction sa; memset(&sa, 0, sizeof sa);
+                    sa.sa_handler = on_alarm; sa.sa_flags = SA_RESTART; sigemptyset(&sa.sa_mask);
+                    sigaction(SIGALRM, &sa, nullptr);
+                    struct itimerval it; memset(&it, 0, sizeof it);
+                    if (has_arg) { it.it_interval.tv_usec = 700; it.it_value.tv_usec = 700; }
+                    setitimer(ITIMER_REAL, &it, nullptr);
+                    out = "ret:unit";
+                }
+                else if (k == "W")
+                {
+                    // the application does nothing for a while (what the peer does meanwhile reaches the socket)
+                    usleep((useconds_t)port * 1000);
+                    out = "ret:unit";
+                }
+                else if (k == "Da")
+                {
+                    // through the public adapter over a std::ostream
+                    logging_streambuf lb; std::ostream os(&lb);
+                    rec_callback cb; cb.answers = cb_answers;
+                    ostream_adapter sink(os);
+                    replies rs = (ci % 2 == 0) ? cl.download_file(sink, a1, has_cb ? &cb : nullptr)
+                                               : cl.download_file(ostream_adapter(os), a1, has_cb ? &cb : nullptr);
+                    out = "ret:replies:" + show_replies(rs);
+                }
+                else if (k == "Ua")
+                {
+                    // through the public adapter over a std::istream holding the whole source
+                    std::string all; for (const std::string & c : chunks) all += c;
+                    std::istringstream iss(all);
+                    rec_callback cb; cb.answers = cb_answers;
+                    istream_adapter src(iss);
+                    replies rs;
+                    if (ci % 2 == 0)
+                        rs = upv == "A" ? cl.append_file(src, a1, has_cb ? &cb : nullptr)
+                                        : cl.upload_file(src, a1, upv == "U", has_cb ? &cb : nullptr);
+                    else
+                        rs = upv == "A" ? cl.append_file(istream_adapter(iss), a1, has_cb ? &cb : nullptr)
+                                        : cl.upload_file(istream_adapter(iss), a1, upv == "U", has_cb ? &cb : nullptr);
+                    out = "ret:replies:" + show_replies(rs);
+                }
                 else if (k == "D")
                 {
                     rec_sink sink; sink.fail_at = fail_at;
